@@ -43,10 +43,18 @@ def corpus_lines(prop_id):
     return out
 
 
-def evaluate(mod, run, lines, want_model=True):
-    """impl / model / spec on the given lines; fills run.failures / run.disagreements."""
+def evaluate(mod, run, lines, want_model=True, via=None):
+    """impl / model / spec on the given lines; fills run.failures / run.disagreements.
+    `mod.lean_line(line)` (optional) rewrites a line that carries a CALL HISTORY on the implementation side (operands
+    warmed and derived by identity-like transformations) into the history-free line the Lean drivers answer: the model
+    and the specification are functions of the mathematical operands only.
+    `via` = id of the property whose operations these are, when they are borrowed by another property's check."""
     procs = int(os.environ.get("VERIF_PROCS", "16"))
     impl_out = _pool_map(mod.impl, lines, procs)
+    impl_lines = lines
+    ll = getattr(mod, "lean_line", None)
+    if ll is not None:
+        lines = [ll(l) for l in lines]
     model_ops = getattr(mod, "MODEL_OPS", None)
     model_out = [None] * len(lines)
     if want_model:
@@ -65,7 +73,7 @@ def evaluate(mod, run, lines, want_model=True):
     for i, o in zip(sidx, souts):
         spec_out[i] = o
     err_class = getattr(mod, "ERR_CLASS", False)
-    for l, io, mo, so in zip(lines, impl_out, model_out, spec_out):
+    for l, io, mo, so in zip(impl_lines, impl_out, model_out, spec_out):
         run.evaluations += 1
         key = mod.nontrivial(l, io)
         if key is not None:
@@ -74,10 +82,13 @@ def evaluate(mod, run, lines, want_model=True):
         run.count("spec:" + so.split(" ", 1)[0])
         if len(run.samples) < 8 and key is not None and run.rng.random() < 0.01 + 8.0 / max(8, len(lines)):
             run.samples.append({"op": l, "impl": io, "model": mo, "spec": so})
+        rec = {"line": l, "impl": io, "model": mo, "spec": so}
+        if via:
+            rec["via"] = via
         if so.startswith("fail") or so.startswith("bad-args"):
-            run.failures.append({"line": l, "impl": io, "model": mo, "spec": so})
+            run.failures.append(rec)
         if mo is not None and not mo.startswith("bad-op") and not C.same(io, mo, err_class):
-            run.disagreements.append({"line": l, "impl": io, "model": mo, "spec": so})
+            run.disagreements.append(rec)
     if not run.samples and lines:
         run.samples.append({"op": lines[0], "impl": impl_out[0], "model": model_out[0], "spec": spec_out[0]})
 
@@ -160,6 +171,7 @@ def main(argv):
     evaluate(mod, run, lines, want_model=model_usable)
     if hasattr(mod, "extra_checks"):
         mod.extra_checks(run)
+    borrowed = _borrow(mod, run, tier, seed, a.skip_build)
     if run.extra.get("model_driver_failed"):
         broken.append({"what": "model driver", "detail": run.notes[-1:]})
     if run.disagreements:
@@ -177,6 +189,9 @@ def main(argv):
         run.nontrivial |= run2.nontrivial
     # 5 decide ------------------------------------------------------------------------------
     findings = C.load_findings(mod.ID)
+    own_ids = {f["id"] for f in findings}
+    for o in borrowed:
+        findings = findings + [f for f in C.load_findings(o.ID) if f["id"] not in own_ids]
     new_failures = []
     for f in run.failures:
         k = C.match_finding(findings, f["line"], f["impl"], f)
@@ -185,6 +200,8 @@ def main(argv):
         else:
             new_failures.append(f)
     for f in findings:
+        if f["id"] not in own_ids and not run.known_hit.get(f["id"]):
+            continue        # a finding of a property whose operations are borrowed: reported only when seen here
         print(f"KNOWN-FINDING: property={mod.ID} {f['id']} {f['what']}"
               + ("" if run.known_hit.get(f["id"]) or not f.get("op") else " (not exercised in this run)"))
     violations = 0
@@ -237,6 +254,34 @@ def main(argv):
     return rc
 
 
+def _borrow(mod, run, tier, seed, skip_build):
+    """`BORROW = [{"prop": "c06", "ops": {...}, "max": n, "why": "..."}]`: operations of ANOTHER property's check that
+    observe this property as well (e.g. the interval-class wrappers of the coordinate maps) are evaluated with that
+    property's implementation harness, model driver and specification driver; a failing verdict on the real code's
+    answer is a failing input of THIS property too (recorded with `via`)."""
+    mods = []
+    for b in getattr(mod, "BORROW", []):
+        other = importlib.import_module(f"harness.props.{b['prop']}")
+        if not skip_build:
+            okb, _ = C.lake_build(list(other.SPEC_DRIVER_MODULES))
+            if not okb:
+                run.notes.append(f"borrowed operations of {other.ID} skipped: its spec driver does not build")
+                continue
+        have_model = skip_build or C.lake_build(list(other.DRIVER_MODULES))[0]
+        runb = C.Run(mod.ID, tier, seed)
+        ops = set(b["ops"])
+        blines = [l for l in other.cases(runb) if l.split(" ", 1)[0] in ops]
+        if b.get("max") and len(blines) > b["max"]:
+            blines = runb.rng.sample(blines, b["max"])
+        n0 = run.evaluations
+        evaluate(other, run, blines, want_model=have_model, via=other.ID)
+        run.count(f"borrowed:{other.ID}", run.evaluations - n0)
+        run.extra.setdefault("borrowed", []).append({"from": other.ID, "ops": sorted(ops), "lines": len(blines),
+                                                     "why": b.get("why", "")})
+        mods.append(other)
+    return mods
+
+
 def _driver_builds(mod):
     ok, _ = C.lake_build(list(mod.DRIVER_MODULES))
     return ok
@@ -249,7 +294,11 @@ def replay(mod, run, path):
         print(json.dumps(data.get("broken_obligations"), indent=1))
         return 1
     lines = [fi["line"]]
-    evaluate(mod, run, lines)
+    if fi.get("via"):
+        mod_e = importlib.import_module(f"harness.props.{fi['via'].lower()}")
+        evaluate(mod_e, run, lines, via=fi["via"])
+    else:
+        evaluate(mod, run, lines)
     for f in run.failures:
         print("still fails:", json.dumps(f))
     if run.failures:
